@@ -362,9 +362,15 @@ for _p in ():
 # ------------------------------------------------------------------ translation tie (Rust AST regenerated by /verif/translator)
 CODE_TIE = {'C05': ['Client'], 'C06': ['Client'], 'C14': ['Client'], 'C01': ['Client', 'Updater', 'Extract', 'Drift'],
             'C07': ['Extract'], 'C10': ['Extract', 'Leap'], 'C08': ['Updater'], 'C09': ['Updater'], 'C19': ['Drift']}
+_TIE_WHAT = {'Client': 'ClockErrorBound::compute_bound_at = computeBoundAt', 'Leap': 'ChronyClockStatus::from(u16) = leapClass',
+             'Extract': 'extract_bound_from_tracking = (boundF, classify)', 'Updater': 'ShmUpdater::{new, process_clock_update, process_missing_clock_update, write_clock_error_bound} = Updater.{new, step, record}',
+             'Drift': 'the ppm->ppb conversion in main = driftPpb'}
 for _p, _g in CODE_TIE.items():
     if _p in PROPS:
         PROPS[_p]['code_tie'] = [f'ClockBound.Properties.CodeTie{_x}' for _x in _g]
+        PROPS[_p]['level_text'] = PROPS[_p].get('level_text', '') + ' Translation tie (re-checked against the current source on every run): ' + '; '.join(f'CodeTie{_x}: for all inputs, the AST regenerated from the Rust source, run by the interpreter Rs.run, equals the model ({_TIE_WHAT[_x]})' for _x in _g) + '.'
+        PROPS[_p]['trusted_base'] = list(PROPS[_p].get('trusted_base', [])) + [
+            'translation tie: the translator /verif/translator (syn 2 parser + printer; cfg(test) and cfg(clock_bound_verif) evaluated to false) and the interpreter lean/ClockBound/Rs/Interp.lean (one rule per Rust fact: checked integer arithmetic as in the dev profile, wrapping `as`, IEEE binary64 as in Model/F64 without exponent range, nix TimeSpec as in Model/Time, anything without a rule is `stuck`), Rs/Embed.lean (which Rust value a model value stands for); the FSM behind Box<dyn FSMState> is represented by fsmStep (tied by the regenerated transition table)']
 
 # ------------------------------------------------------------------ translated constants (supplementary source tie)
 CONSTS = {'C05': 'Client', 'C06': 'Client', 'C14': 'Client', 'C18': 'Reader', 'C11': 'Gen', 'C16': 'Magic', 'C17': 'Magic',
